@@ -52,6 +52,7 @@ class SecureServer:
         self.loop = loop
         self.user_key = ipsec.user_password_key(user_password)
         self.device_key = ipsec.device_authentication_key(device_password) if device_password else bytes(16)
+        self.fresh_session_ids = True
         self.session_id = session_id
         self.tr: Any = None
         self.buf = b""
@@ -105,6 +106,10 @@ class SecureServer:
             self._on_session_request(raw)
 
     def _on_session_request(self, raw: bytes) -> None:
+        # every session gets its own id (the first one the configured id, then counting up), as a real device does
+        self.sessions_opened = getattr(self, "sessions_opened", 0) + 1
+        if self.sessions_opened > 1 and self.fresh_session_ids:
+            self.session_id = (self.session_id + 1) & 0xFFFF or 1
         self.client_pub = raw[-32:]
         shared = X25519PrivateKey.from_private_bytes(SERVER_PRIV).exchange(X25519PublicKey.from_public_bytes(self.client_pub))
         self.key = ipsec.session_key(shared)
